@@ -291,6 +291,10 @@ def _record_analysis(spec):
                     else:
                         mxx, myy, mr, mi, m2 = (float(v) for v in getattr(core, name)(*args))
                     sc = max(mxx, myy)
+                    if spec["data"] == "dynrange" and sc < 1e-10 * float(max(np.max(ref.XX), np.max(ref.YY))):
+                        # floor bins 100 dB and more below the line: the NumPy product and the Goertzel recurrence round relative to the
+                        # size of the record, not of the bin (1e-4 of a bin that is 1e-17 of the record)
+                        continue
                     if not (sc > 1e-150):          # an all-zero window (hann, L = 2): every statistic is exactly 0
                         sc = 1.0
                     ev.append({"t": "refbin", "q": [qc(float(ref.XX[j]) / sc), qc(float(ref.YY[j]) / sc), qc(float(ref.XY[j].real) / sc), qc(float(ref.XY[j].imag) / sc),
